@@ -13,8 +13,8 @@
    UnicodeTables.is_letter / is_digit, the tables of the Go toolchain).                      *)
 From Coq Require Import String ZArith List Bool.
 From Knut Require Import Model.Bytes Model.Utf8 Model.UnicodeTables Model.Scanner Model.Parser
-  Spec.SyntaxSpec Spec.LeafSpec Spec.SepSpec Proofs.ScannerProofs Proofs.ParserProofs Proofs.RoundTripLeaf
-  Proofs.RoundTripTop Proofs.LeafProofs Proofs.KeywordProofs Proofs.SepProofs.
+  Spec.SyntaxSpec Spec.FormatSpec Spec.LeafSpec Spec.SepSpec Proofs.ScannerProofs Proofs.ParserProofs Proofs.RoundTripLeaf
+  Proofs.RoundTripTop Proofs.LeafProofs Proofs.KeywordProofs Proofs.SepProofs Proofs.DeterminedProofs.
 Import ListNotations.
 Open Scope Z_scope.
 
@@ -131,6 +131,54 @@ Theorem C07_separators_unrestricted_refuted :
   exists letter digit t f, parse_text letter digit t = ParseOk f /\ wf_separators_b t f = false.
 Proof. exact separators_unrestricted_refuted. Qed.
 Print Assumptions C07_separators_unrestricted_refuted.
+
+(* SUMMARY: every byte of the text is accounted for.  [pieces t f] (Spec/SepSpec.v) lists, in
+   source order, the gaps between the directives, the leaves, the keyword windows and the
+   separators of the tree, each with its class; [determined_b]: the ranges of the pieces follow
+   each other without a hole from 0 to |t| and the slice of every piece is in its class
+   ([piece_ok_b]: a gap is whitespace-only and comment lines as in cover_b; a leaf is in its
+   lexical class as in wf_leaves_b; a keyword window is as in wf_keywords_b; a separator is
+   blank+, blank*, blank* `,` blank*, blank* newline as in wf_separators_b).  Hence the text is
+   the concatenation of the slices of its pieces: it is determined by the leaves, the keywords
+   and the classes of gaps and separators.
+   The one class that does not describe its text completely is PDropped: addon lines in front
+   of an open / close / balance / price / include are accepted by the parser and belong to no
+   node (only in a transaction are they kept); of them the statement says `@` ... newline.   *)
+Theorem C07_text_determined : forall letter digit t f, class_ok letter digit ->
+  parse_text letter digit t = ParseOk f ->
+  determined_b letter digit t f = true /\
+  forallb (piece_ok_b Utf8M.decode letter digit t) (pieces t f) = true /\
+  concat (map (fun p => cut t (fst p)) (pieces t f)) = t.
+Proof. exact parse_text_determined. Qed.
+Print Assumptions C07_text_determined.
+
+Theorem C07_text_determined_unicode : forall t f,
+  parse_text is_letter is_digit t = ParseOk f ->
+  determined_b is_letter is_digit t f = true /\
+  forallb (piece_ok_b Utf8M.decode is_letter is_digit t) (pieces t f) = true /\
+  concat (map (fun p => cut t (fst p)) (pieces t f)) = t.
+Proof. exact (fun t f => parse_text_determined is_letter is_digit t f unicode_class_ok). Qed.
+Print Assumptions C07_text_determined_unicode.
+
+(* the same about ANY tree -- no parser in the statement: the five executable statements that
+   every check run evaluates on the Go parser's tree imply that its pieces account for every
+   byte ("cover_b + wf_leaves_b + wf_keywords_b + wf_separators_b", with wf_tree_b for the
+   order of the ranges) *)
+Theorem C07_specs_determine : forall letter digit t f,
+  wf_tree_b t f = true -> cover_b t f = true -> wf_leaves_b letter digit t f = true ->
+  wf_keywords_b t f = true -> wf_separators_b t f = true ->
+  determined_b letter digit t f = true /\
+  forallb (piece_ok_b Utf8M.decode letter digit t) (pieces t f) = true /\
+  concat (map (fun p => cut t (fst p)) (pieces t f)) = t.
+Proof. exact determined_of_specs_b. Qed.
+Print Assumptions C07_specs_determine.
+
+(* two parsed texts whose pieces have the same slices are the same text *)
+Theorem C07_text_determined_eq : forall letter digit t f t' f', class_ok letter digit ->
+  parse_text letter digit t = ParseOk f -> parse_text letter digit t' = ParseOk f' ->
+  map (fun p => cut t (fst p)) (pieces t f) = map (fun p => cut t' (fst p)) (pieces t' f') -> t = t'.
+Proof. exact parse_text_determined_eq. Qed.
+Print Assumptions C07_text_determined_eq.
 
 (* the three results in one statement *)
 Theorem C07_total : forall letter digit t,
@@ -278,6 +326,12 @@ C 2 Y
 Example C07_example_separators :
   exists f, parse_text is_letter is_digit ex_text2 = ParseOk f /\ List.length (f_directives f) = 3%nat /\
             wf_separators_b ex_text2 f = true.
+Proof. eexists. split; [vm_compute; reflexivity|]. vm_compute. split; reflexivity. Qed.
+
+(* the example text consists of 64 pieces *)
+Example C07_example_determined :
+  exists f, parse_text is_letter is_digit ex_text2 = ParseOk f /\
+            determined_b is_letter is_digit ex_text2 f = true /\ List.length (pieces ex_text2 f) = 64%nat.
 Proof. eexists. split; [vm_compute; reflexivity|]. vm_compute. split; reflexivity. Qed.
 
 (* a tab is a blank, a missing blank or a second comma is not: trees whose ranges claim
